@@ -79,3 +79,162 @@ Theorem code_call_variant_peptide_batches_is_model : forall threads l,
   Py_call_variant_peptide.call_variant_peptide_batches threads l = batches_fix threads l.
 Proof. exact code_call_variant_peptide_batches_is_model_l. Qed.
 Print Assumptions code_call_variant_peptide_batches_is_model.
+
+(* ---- record ORDER and record IDENTITY (Model/VarRecord.v; proofs in Proofs/VarRecordProofs.v).
+        callVariant de-duplicates the records of a transcript with set() (VariantRecord.__hash__ / __eq__) and sorts
+        every series with list.sort() (VariantRecord.__lt__).  vr_eq / vr_gt / vr_ge / vr_lt / vr_le / hash_key mirror the
+        six methods (tied to the source by the code_varrecord_* obligations below); `sorted` is a stable sort that
+        consults only `<`. ---- *)
+From MoPep Require Import Model.VarRecord Proofs.VarRecordProofs.
+
+(* __eq__ is an equivalence *)
+Theorem varrecord_eq_equivalence :
+  (forall a, vr_eq a a = true) /\ (forall a b, vr_eq a b = true -> vr_eq b a = true) /\
+  (forall a b c, vr_eq a b = true -> vr_eq b c = true -> vr_eq a c = true).
+Proof. exact vr_eq_equivalence_l. Qed.
+Print Assumptions varrecord_eq_equivalence.
+
+(* equal hashed tuples are `==` records (the strand is compared by __eq__ but not hashed, hence the guard) *)
+Theorem hash_key_eq :
+  forall a b, hash_key a = hash_key b -> l_strand (v_loc a) = l_strand (v_loc b) -> vr_eq a b = true.
+Proof. exact hash_key_eq_l. Qed.
+Print Assumptions hash_key_eq.
+
+Theorem hash_key_eq_unguarded_refuted : exists a b, hash_key a = hash_key b /\ vr_eq a b = false.
+Proof. exact hash_key_eq_unguarded_refuted_l. Qed.
+Print Assumptions hash_key_eq_unguarded_refuted.
+
+(* the direction Python's data model requires, a == b -> hash(a) == hash(b), does NOT hold: __hash__ reads eleven
+   attributes that __eq__ ignores (two `==` records can both be members of the set) ... *)
+Theorem eq_hash_consistent_refuted : exists a b, vr_eq a b = true /\ hash_key a <> hash_key b.
+Proof. exact eq_hash_consistent_refuted_l. Qed.
+Print Assumptions eq_hash_consistent_refuted.
+
+(* ... and holds exactly under the guard that the eleven hashed attribute values agree *)
+Theorem eq_hash_consistent_guarded : forall a b, vr_eq a b = true ->
+  (forall k, (k < 11)%nat -> attr a k = attr b k) -> hash_key a = hash_key b.
+Proof. exact eq_hash_consistent_guarded_l. Qed.
+Print Assumptions eq_hash_consistent_guarded.
+
+(* __gt__ is not antisymmetric: SNV C>A and the insertion C>CG at one position are each `>` the other
+   ('A' < 'CG' but 'SNV' > 'INDEL'), so neither is `<` the other and they are not `==` *)
+Theorem gt_not_antisymmetric_refuted : exists a b, vr_gt a b = true /\ vr_gt b a = true /\ vr_eq a b = false.
+Proof. exact gt_not_antisymmetric_refuted_l. Qed.
+Print Assumptions gt_not_antisymmetric_refuted.
+
+(* exactly which pairs are `>` each other: same location, same ref, alt and type ordered oppositely *)
+Theorem gt_conflict_iff : forall a b, gt_conflict a b = true <->
+  (v_loc a = v_loc b /\ v_ref a = v_ref b /\
+   ((str_gtb (v_alt a) (v_alt b) = true /\ str_gtb (v_type b) (v_type a) = true) \/
+    (str_gtb (v_alt b) (v_alt a) = true /\ str_gtb (v_type a) (v_type b) = true))).
+Proof. exact gt_conflict_iff_l. Qed.
+Print Assumptions gt_conflict_iff.
+
+(* a pair that fails the decidable test is `==` without being identical, or `>` both ways, or `<` both ways *)
+Theorem pair_not_ok_cases : forall a b, pair_ok a b = false ->
+  (vr_eq a b = true /\ a <> b) \/ gt_conflict a b = true \/ incomparable a b = true.
+Proof. exact pair_not_ok_cases_l. Qed.
+Print Assumptions pair_not_ok_cases.
+
+(* the sort returns its input rearranged, whatever the records *)
+Theorem sorted_perm : forall l, Permutation l (sorted l).
+Proof. exact sorted_perm_l. Qed.
+Print Assumptions sorted_perm.
+
+(* THE positive statement, all lists of all lengths: on conflict-free records the sorted series is a function of
+   the multiset of records - not of how they were split over GVF files nor of the order inside the files *)
+Theorem sorted_layout_free : forall l l', Permutation l l' -> conflict_free l = true -> sorted l = sorted l'.
+Proof. exact sorted_layout_free_l. Qed.
+Print Assumptions sorted_layout_free.
+
+(* independent of the sorting ALGORITHM: any `<`-sorted rearrangement of conflict-free records (what list.sort()
+   returns for a strict total order, whether by binary insertion or by merging) is this list *)
+Theorem sorted_unique : forall l out, conflict_free l = true -> Permutation l out ->
+  lt_sorted out = true -> out = sorted l.
+Proof. exact sorted_unique_l. Qed.
+Print Assumptions sorted_unique.
+
+Theorem sorted_is_sorted : forall l, conflict_free l = true -> lt_sorted (sorted l) = true.
+Proof. exact sorted_is_sorted_l. Qed.
+Print Assumptions sorted_is_sorted.
+
+(* without the hypothesis the statement is false for the code as written: the witness pair keeps its INPUT order *)
+Theorem sorted_layout_dependent_refuted :
+  exists l l', Permutation l l' /\ sorted l <> sorted l' /\ conflict_free l = false.
+Proof. exact sorted_layout_dependent_refuted_l. Qed.
+Print Assumptions sorted_layout_dependent_refuted.
+
+(* three records (SNV C>A, insertions C>CG and C>CA): the SNV is `<`-unrelated to both insertions, which are ordered *)
+Theorem sorted_triple_refuted :
+  exists a b c, vr_lt c b = true /\ vr_lt a b = false /\ vr_lt b a = false /\ vr_lt a c = false /\ vr_lt c a = false /\
+    sorted [b; a; c] <> sorted [a; b; c] /\ sorted [b; c; a] <> sorted [a; b; c].
+Proof. exact sorted_triple_refuted_l. Qed.
+Print Assumptions sorted_triple_refuted.
+
+(* the hypotheses are satisfiable: five records incl. a duplicate, an SNV and two insertions at one position *)
+Theorem conflict_free_example :
+  conflict_free [w_far; w_ins; w_snv_t; w_ins; w_ins2] = true /\
+  sorted [w_far; w_ins; w_snv_t; w_ins; w_ins2] = [w_ins2; w_ins; w_ins; w_snv_t; w_far] /\
+  sorted [w_ins; w_ins2; w_far; w_ins; w_snv_t] = [w_ins2; w_ins; w_ins; w_snv_t; w_far].
+Proof. exact conflict_free_example_l. Qed.
+Print Assumptions conflict_free_example.
+
+(* set(records): if the records the set identifies (equal hashed tuple and `==`) are identical, the set holds the same
+   records whatever the order of delivery ... *)
+Theorem dedup_layout_free : forall l l', Permutation l l' ->
+  (forall a b, In a l -> In b l -> same_member a b = true -> a = b) ->
+  forall x, In x (dedup l) <-> In x (dedup l').
+Proof. exact dedup_layout_free_l. Qed.
+Print Assumptions dedup_layout_free.
+
+(* ... otherwise the first one delivered stays (the same variant under two ids: the id in the FASTA header follows the
+   file order; the peptide sequences do not depend on the id) *)
+Theorem dedup_layout_dependent_refuted :
+  exists a b, same_member a b = true /\ a <> b /\ dedup [a; b] = [a] /\ dedup [b; a] = [b].
+Proof. exact dedup_layout_dependent_refuted_l. Qed.
+Print Assumptions dedup_layout_dependent_refuted.
+
+(* ---- code-level tie (docs/py2coq.md, the VariantRecord targets): the bodies of the eight methods, regenerated from /repo's current
+        source into Gen/Py_VariantRecord.v on every run, equal the model functions for ALL arguments ---- *)
+From MoPep Require Gen.Py_VariantRecord.
+From MoPep Require Import Proofs.Py2CoqVarRecordProofs.
+
+Theorem code_varrecord_methods_translated :
+  Py_VariantRecord.py_loc_eq_untranslated || Py_VariantRecord.py_loc_gt_untranslated ||
+  Py_VariantRecord.py_vr_eq_untranslated || Py_VariantRecord.py_vr_gt_untranslated ||
+  Py_VariantRecord.py_vr_ge_untranslated || Py_VariantRecord.py_vr_lt_untranslated ||
+  Py_VariantRecord.py_vr_le_untranslated || Py_VariantRecord.py_vr_hash_key_untranslated = false.
+Proof. vm_compute. reflexivity. Qed.
+Print Assumptions code_varrecord_methods_translated.
+
+Theorem code_featurelocation_eq_is_model : forall a b, Py_VariantRecord.py_loc_eq a b = loc_eqb a b.
+Proof. exact code_featurelocation_eq_is_model_l. Qed.
+Print Assumptions code_featurelocation_eq_is_model.
+
+Theorem code_featurelocation_gt_is_model : forall a b, Py_VariantRecord.py_loc_gt a b = loc_gtb a b.
+Proof. exact code_featurelocation_gt_is_model_l. Qed.
+Print Assumptions code_featurelocation_gt_is_model.
+
+Theorem code_varrecord_eq_is_model : forall a b, Py_VariantRecord.py_vr_eq a b = vr_eq a b.
+Proof. exact code_varrecord_eq_is_model_l. Qed.
+Print Assumptions code_varrecord_eq_is_model.
+
+Theorem code_varrecord_gt_is_model : forall a b, Py_VariantRecord.py_vr_gt a b = vr_gt a b.
+Proof. exact code_varrecord_gt_is_model_l. Qed.
+Print Assumptions code_varrecord_gt_is_model.
+
+Theorem code_varrecord_ge_is_model : forall a b, Py_VariantRecord.py_vr_ge a b = vr_ge a b.
+Proof. exact code_varrecord_ge_is_model_l. Qed.
+Print Assumptions code_varrecord_ge_is_model.
+
+Theorem code_varrecord_lt_is_model : forall a b, Py_VariantRecord.py_vr_lt a b = vr_lt a b.
+Proof. exact code_varrecord_lt_is_model_l. Qed.
+Print Assumptions code_varrecord_lt_is_model.
+
+Theorem code_varrecord_le_is_model : forall a b, Py_VariantRecord.py_vr_le a b = vr_le a b.
+Proof. exact code_varrecord_le_is_model_l. Qed.
+Print Assumptions code_varrecord_le_is_model.
+
+Theorem code_varrecord_hash_is_model : forall a, Py_VariantRecord.py_vr_hash_key a = hash_key a.
+Proof. exact code_varrecord_hash_is_model_l. Qed.
+Print Assumptions code_varrecord_hash_is_model.
